@@ -2,6 +2,8 @@
 // state unit assumes — each proved on the REAL code (real lazy_static, real bitflags-generated operators) for its whole domain.
 #![allow(dead_code, unused_imports)]
 use super::*;
+#[allow(unused_imports)]
+use crate::parser::H263Reader;
 
 include!("/verif/hooks/common.rs");
 
@@ -38,6 +40,153 @@ fn h_bitflags_model<S: Src>(s: &mut S) {
     s.reach();
 }
 
+// ---------------------------------------------------------------------------------------------------------------------------------
+// native witness search for the state machine contracts (C04, C05, C15): a reference MODEL of (last picture, reference picture) is run
+// next to the real decoder on a history drawn from the witness bytes: Sorenson I pictures (flat, INTRADC code c => every sample == c),
+// P and disposable P pictures made of not-coded macroblocks (=> a copy of the reference), rejected pictures (invalid INTRADC after the
+// header, truncated data, an invalid macroblock header in the last macroblock), explicit clean-ups; temporal references are arbitrary bytes (often equal / 255).
+#[cfg(not(kani))]
+struct HBw {
+    buf: Vec<u8>,
+    pos: usize,
+}
+#[cfg(not(kani))]
+impl HBw {
+    fn put(&mut self, val: u32, n: usize) {
+        for k in 0..n {
+            if self.pos / 8 >= self.buf.len() {
+                self.buf.push(0);
+            }
+            let bit = ((val >> (n - 1 - k)) & 1) as u8;
+            self.buf[self.pos / 8] |= bit << (7 - (self.pos % 8));
+            self.pos += 1;
+        }
+    }
+    fn align(&mut self) {
+        while self.pos % 8 != 0 {
+            self.put(0, 1);
+        }
+    }
+}
+#[cfg(not(kani))]
+fn sor_picture(tr: u8, w: u8, h: u8, ptype: u32, dc: u8, bad: u8) -> Vec<u8> {
+    let mut b = HBw { buf: Vec::new(), pos: 0 };
+    b.put(1, 17);
+    b.put(0, 5);
+    b.put(tr as u32, 8);
+    b.put(0, 3);
+    b.put(w as u32, 8);
+    b.put(h as u32, 8);
+    b.put(ptype, 2);
+    b.put(0, 1);
+    b.put(5, 5);
+    b.put(0, 1);
+    let n = ((w as usize + 15) / 16) * ((h as usize + 15) / 16);
+    for k in 0..n {
+        if ptype == 0 {
+            b.put(1, 1); // MCBPC: INTRA, no chroma coefficients
+            b.put(0b0011, 4); // CBPY: no luma coefficients
+            for blk in 0..6 {
+                // bad 1: an invalid INTRADC code in the last macroblock (fails after the header and after earlier macroblocks)
+                let code = if bad == 1 && k == n - 1 && blk == 3 { 0 } else { dc };
+                b.put(code as u32, 8);
+            }
+        } else if bad == 3 && k == n - 1 {
+            b.put(0, 1); // COD = 0 followed by an invalid MCBPC code word (ten zero bits): fails in the last macroblock
+            b.put(0, 10);
+        } else {
+            b.put(1, 1); // COD = 1: not coded
+        }
+    }
+    b.align();
+    if bad == 2 {
+        b.buf.truncate(4); // truncated inside the header
+    }
+    b.buf
+}
+#[cfg(not(kani))]
+fn h_history_dyn(s: &mut RSrc) {
+    type Planes = (Vec<u8>, Vec<u8>, Vec<u8>, u16);
+    let mut st = H263State::new(DecoderOption::SORENSON_SPARK_BITSTREAM);
+    let mut last: Option<Planes> = None;
+    let mut reference: Option<Planes> = None;
+    let (w, h) = if s.bool() { (16u8, 16u8) } else { (32u8, 16u8) };
+    let steps = 2 + (s.u8() % 7) as usize;
+    let mut ok_last = true;
+    let mut ok_err = true;
+    let mut ok_acc = true;
+    for _ in 0..steps {
+        let op = s.u8() % 8;
+        let tr = match s.u8() % 4 {
+            0 => 255,
+            1 => 7,
+            2 => reference.as_ref().map(|r| r.3 as u8).unwrap_or(3),
+            _ => s.u8(),
+        };
+        let dc = 1 + s.u8() % 120;
+        if op == 7 {
+            st.cleanup_buffers();
+        } else {
+            let (ptype, bad) = match op {
+                0 | 1 => (0, 0),
+                2 | 3 => (1, 0),
+                4 => (2, 0),
+                5 => (0, 1),
+                _ => {
+                    let t = if s.bool() { 1 } else { 0 };
+                    let b = 2 + s.u8() % 2;
+                    (if b == 3 { 1 } else { t }, b)
+                }
+            };
+            let data = sor_picture(tr, w, h, ptype, dc, bad);
+            let mut rd = H263Reader::from_source(&data[..]);
+            let r = st.decode_next_picture(&mut rd);
+            let n = w as usize * h as usize;
+            let cn = n / 4;
+            // what the model expects
+            let expect: Option<Planes> = if bad != 0 {
+                None
+            } else if ptype == 0 {
+                Some((vec![dc; n], vec![dc; cn], vec![dc; cn], tr as u16))
+            } else {
+                reference.as_ref().map(|r| (r.0.clone(), r.1.clone(), r.2.clone(), tr as u16))
+            };
+            match (&r, &expect) {
+                (Ok(()), Some(p)) => {
+                    last = Some(p.clone());
+                    if ptype != 2 {
+                        reference = Some(p.clone());
+                    }
+                }
+                (Err(_), None) => {
+                    // the reader must still deliver the same bits
+                    let first: u32 = rd.read_bits(17).unwrap_or(99);
+                    if data.len() >= 3 && first != 1 {
+                        ok_err = false;
+                    }
+                }
+                (Ok(()), None) => ok_acc = false,
+                (Err(_), Some(_)) => ok_acc = false,
+            }
+        }
+        // the decoder must report exactly the model's last picture
+        match (st.get_last_picture(), &last) {
+            (None, None) => {}
+            (Some(p), Some(m)) => {
+                let (y, cb, cr) = p.as_yuv();
+                if y != &m.0[..] || cb != &m.1[..] || cr != &m.2[..] || p.as_header().temporal_reference != m.3 {
+                    ok_last = false;
+                }
+            }
+            _ => ok_last = false,
+        }
+    }
+    chk!(s, ok_acc, "state.history.accept_reject: valid pictures are accepted (predicted ones need a reference), invalid ones rejected");
+    chk!(s, ok_last, "state.history.last_and_reference: after every call the last picture is the last accepted one, and predicted pictures are copies of the last non-disposable picture");
+    chk!(s, ok_err, "state.history.err_keeps_reader: after a failed decode the reader delivers the same bits again");
+    s.reach();
+}
+
 #[cfg(kani)]
 mod proofs {
     use super::*;
@@ -64,6 +213,7 @@ mod replay {
             "ceil_div16" => h_ceil_div16(r),
             "option_masks" => h_option_masks(r),
             "bitflags_model" => h_bitflags_model(r),
+            "history_dyn" => h_history_dyn(r),
             _ => return false,
         }
         true
